@@ -313,6 +313,37 @@ def _first_use_host(st):
     return None
 
 
+def _merge_flag_diamond(st, keep, fn):
+    """`if C: v = <bool constant> else: v = E` (either way round) on a new local v bound nowhere else becomes `v = <C combined with E>`:
+    the value is the same whenever C is a boolean, and has the same truth otherwise."""
+    if not (isinstance(st, ast.If) and len(st.body) == 1 and len(st.orelse) == 1):
+        return None
+    a, b = st.body[0], st.orelse[0]
+    for x in (a, b):
+        if not (isinstance(x, ast.Assign) and len(x.targets) == 1 and isinstance(x.targets[0], ast.Name)):
+            return None
+    v = a.targets[0].id
+    if b.targets[0].id != v or v in keep:
+        return None
+    loads, stores = _loads_stores(fn, v)
+    if len(stores) != 2:
+        return None
+    if any(isinstance(x, ast.Name) and x.id == v for x in ast.walk(st.test)):
+        return None
+
+    def flag(e):
+        return isinstance(e, ast.Constant) and isinstance(e.value, bool)
+    neg = ast.UnaryOp(op=ast.Not(), operand=st.test)
+    if flag(a.value):
+        # C true -> constant
+        value = ast.BoolOp(op=ast.Or(), values=[st.test, b.value]) if a.value.value else ast.BoolOp(op=ast.And(), values=[neg, b.value])
+    elif flag(b.value):
+        value = ast.BoolOp(op=ast.Or(), values=[neg, a.value]) if b.value.value else ast.BoolOp(op=ast.And(), values=[st.test, a.value])
+    else:
+        return None
+    return ast.fix_missing_locations(ast.copy_location(ast.Assign(targets=[a.targets[0]], value=value), st))
+
+
 def inline_new_temps(module_name, tree):
     """Undo "introduce temporary": a local that the reference unit does not have, bound once by `t = E` and read once, in the
     statement that follows, is replaced by E there.  Returns the number of temporaries removed."""
@@ -330,6 +361,11 @@ def inline_new_temps(module_name, tree):
             changed = False
             for lst in list(_stmt_lists(fn)):
                 for i, st in enumerate(lst[:-1]):
+                    merged = _merge_flag_diamond(st, known | params, fn)
+                    if merged is not None:
+                        lst[i] = st = merged
+                        n += 1
+                        changed = True
                     if not (isinstance(st, ast.Assign) and len(st.targets) == 1 and isinstance(st.targets[0], ast.Name)):
                         continue
                     t = st.targets[0].id
